@@ -125,6 +125,7 @@ pub struct JobResult {
     pub marks: Vec<String>,
     pub eval_ticks: u64,
     pub lexer_ops: u64,
+    pub max_depth: u32,
     pub fired: Vec<bool>,
     /// bytes that appeared on the process's stdout/stderr during the job
     pub stdio_leak: Option<String>,
@@ -185,7 +186,7 @@ pub fn install_panic_hook() {
         let mut rec = PanicRec { loc, ..Default::default() };
         if let Some(f) = payload.downcast_ref::<grass_compiler::verif::FuelExhausted>() {
             rec.fuel = Some(f.0);
-            rec.site = if f.0 == "lexer" { fuel_site() } else { "eval".to_string() };
+            rec.site = if f.0 == "lexer" { fuel_site() } else { f.0.to_string() };
         } else if let Some(s) = payload.downcast_ref::<&str>() {
             rec.msg = s.to_string();
         } else if let Some(s) = payload.downcast_ref::<String>() {
@@ -412,6 +413,7 @@ pub fn build_and_run(spec: &JobSpec, fs: &dyn grass_compiler::Fs, logger: &dyn L
     }
     grass_compiler::verif::set_lexer_fuel(true);
     grass_compiler::verif::set_eval_fuel(spec.eval_fuel);
+    grass_compiler::verif::set_depth_limit(spec.depth_limit);
     let _ = take_last_panic();
     let r = catch_unwind(AssertUnwindSafe(|| {
         let res = match &spec.entry {
@@ -449,6 +451,8 @@ pub fn run_job(spec: &JobSpec) -> JobResult {
     };
     let eval_ticks = grass_compiler::verif::eval_ticks();
     let lexer_ops = grass_compiler::verif::lexer_ops();
+    let max_depth = grass_compiler::verif::max_depth();
+    grass_compiler::verif::set_depth_limit(0);
     grass_compiler::verif::set_lexer_fuel(false);
     grass_compiler::verif::set_eval_fuel(0);
     let after = stdio_captured_len();
@@ -461,6 +465,7 @@ pub fn run_job(spec: &JobSpec) -> JobResult {
         marks: MARKS.with(|m| std::mem::take(&mut *m.borrow_mut())),
         eval_ticks,
         lexer_ops,
+        max_depth,
         fired: inner.fired,
         stdio_leak,
         delivered: inner.delivered.into_iter().collect(),
